@@ -98,7 +98,7 @@ var st = &state{hashes: map[uint64]struct{}{}, viol: map[string]violationRec{}}
 
 // TraceCurrent makes every case be written to $VERIF_WORK/cur.json before it
 // runs, so a case that kills the process (fatal error, OOM) can be identified.
-var TraceCurrent = false
+var TraceCurrent = true
 
 var collectMode = os.Getenv("VERIF_COLLECT") != ""
 
@@ -451,6 +451,7 @@ func replayCorpus(t *testing.T, byName map[string]Sub) {
 			Note("corpus %s: unknown sub %s", e.Name(), rf.Sub)
 			continue
 		}
+		_ = os.WriteFile(filepath.Join(WorkDir(), "cur.json"), b, 0o644)
 		v, c, err := s.replay(rf.Case)
 		if err != nil {
 			t.Fatalf("corpus %s: %v", p, err)
